@@ -611,6 +611,30 @@ impl TulispValue {
         }
     }
 
+    /// Attaches `val` itself (not a copy) to the end of the list in `self`.
+    /// Must not format `val`: the caller holds `self` mutably borrowed, and
+    /// `val` may contain `self`.
+    pub(crate) fn attach(&mut self, val: TulispObject) -> Result<(), Error> {
+        if let TulispValue::List { cons, .. } = self {
+            cons.attach(val)
+        } else if self.null() {
+            if !val.null() {
+                *self = TulispValue::List {
+                    cons: val
+                        .as_list_cons()
+                        .unwrap_or_else(|| Cons::new(val, TulispObject::nil())),
+                    ctxobj: None,
+                };
+            }
+            Ok(())
+        } else {
+            Err(Error::new(
+                ErrorKind::TypeMismatch,
+                "unable to append: the target is not a list".to_string(),
+            ))
+        }
+    }
+
     pub fn into_ref(self, span: Option<Span>) -> TulispObject {
         TulispObject::new(self, span)
     }
